@@ -785,6 +785,7 @@ theorem inv_step (s : State) (a : Act) (h : Inv s) : Inv (step s a) := by
     | hop => exact inv_coHop s c h hc
     | hopCur => exact inv_coHopCur s c h hc
     | job => exact h
+    | fwait => exact h
     | park => exact inv_coPark s c h hc
     | parkNext => exact inv_coParkNext s c h hc
     | pause => exact inv_coPause s c h hc
@@ -806,6 +807,7 @@ theorem inv_step (s : State) (a : Act) (h : Inv s) : Inv (step s a) := by
     | parkPar => exact h
     | hop => exact h
     | hopCur => exact h
+    | fwait => exact h
     | start d fut => exact inv_mainStart s d h hc
     | enter => exact inv_mainEnter s h hc
     | leave => exact inv_mainLeave s h hc
@@ -867,6 +869,7 @@ theorem grows_step (s : State) (a : Act) : Grows s (step s a) := by
       · exact grows_settle_of s _ rfl rfl
       · exact grows_refl s
     | job => exact grows_refl s
+    | fwait => exact grows_refl s
     | park => simp only [coStep, coPark]; exact grows_settle_of s _ rfl rfl
     | parkNext =>
       simp only [coStep, coParkNext]
@@ -920,6 +923,7 @@ theorem grows_step (s : State) (a : Act) : Grows s (step s a) := by
     | parkPar => exact grows_refl s
     | hop => exact grows_refl s
     | hopCur => exact grows_refl s
+    | fwait => exact grows_refl s
     | start d fut =>
       simp only [mainStep, mainStart]
       split
